@@ -64,7 +64,7 @@ for pid in sorted(d[5:] for d in os.listdir(root) if d.startswith("seed_C")):
 with open(os.path.join(VERIF, "seeded", "TABLE.md"), "w") as f:
     f.write("| seed | kept | change (short) | caught by | obligations that reported it |\n|---|---|---|---|---|\n")
     for key, kept, why, summary, r in rows:
-        short = summary.split(".")[0][:170].replace("|", "/")
+        short = " ".join(summary.split())[:160].replace("|", "/")
         by = "; ".join((r.get("by") or [])[:3]).replace("|", "/")
         f.write(f"| {key} | {kept}{(' - ' + why) if why else ''} | {short} | {r.get('verdict', '-')} | {by} |\n")
 print(open(os.path.join(VERIF, "seeded", "TABLE.md")).read())
